@@ -1215,6 +1215,9 @@ impl Vault {
             return Ok(());
         }
 
+        // Expired TTL grants must stop working at once, not only after the next get/list
+        self.cleanup_expired_grants();
+
         let secret_node = self.secret_node_key(key);
 
         if AccessController::check_path_with_permission_verified(
@@ -1241,6 +1244,8 @@ impl Vault {
         if requester == Self::ROOT {
             return true;
         }
+
+        self.cleanup_expired_grants();
 
         let secret_node = self.secret_node_key(key);
         AccessController::get_permission_level_verified(
@@ -1272,6 +1277,8 @@ impl Vault {
         if requester == Self::ROOT {
             return Some(Permission::Admin);
         }
+
+        self.cleanup_expired_grants();
 
         let secret_node = self.secret_node_key(key);
         AccessController::get_permission_level_verified(
